@@ -111,3 +111,19 @@ Example C14_example :
   /\ valid_addr "osmo12z558dm3ew6avgjdj07mfslx80rp9sh8nt7q3w" "osmo" = true
   /\ valid_addr "osmo12z558dm3ew6avgjdj07mfslx80rp9sh8nt7q3x" "osmo" = false.
 Proof. vm_compute. repeat split; reflexivity. Qed.
+
+(* every supplied section of an accepted UpdateConfig is applied: the stored section is the validated form of the supplied
+   one, and the fields that are stored verbatim carry the supplied values *)
+Theorem C14_supplied_sections_are_applied : forall va dv av s e i n p f m bp s' r,
+  execute va dv av s e i (UpdateConfig n p f m bp) = Ok (s', r) ->
+  (forall u, n = Some u -> validate_native va u = Some (native (cfg s'))
+                           /\ nc_staker (native (cfg s')) = un_staker u /\ nc_collector (native (cfg s')) = un_collector u
+                           /\ nc_validators (native (cfg s')) = un_validators u /\ nc_unbonding (native (cfg s')) = un_unbonding u)
+  /\ (forall u, p = Some u -> validate_protocol va u = Some (protocol (cfg s'))
+                              /\ pc_channel (protocol (cfg s')) = up_channel u /\ pc_min (protocol (cfg s')) = up_min u
+                              /\ pc_oracle (protocol (cfg s')) = up_oracle u)
+  /\ (forall u, f = Some u -> fee_rate (fees (cfg s')) = uf_rate u /\ fee_treasury (fees (cfg s')) = uf_treasury u)
+  /\ (forall l, m = Some l -> monitors (cfg s') = l)
+  /\ (forall x, bp = Some x -> batch_period (cfg s') = x).
+Proof. exact update_config_applies. Qed.
+Print Assumptions C14_supplied_sections_are_applied.
